@@ -172,9 +172,9 @@ pub fn run(ctx: &Ctx, replay: Option<&str>) {
     masks.sort(); masks.dedup();
     let mut words: Vec<P> = Vec::new();
     for &m in &masks {
-        let mut datas = vec![0u16, 0xFFFF, m, !m];
+        let mut datas = if ctx.quick() { vec![0u16, 0xFFFF, !m] } else { vec![0u16, 0xFFFF, m, !m] };
         if m == 0xFFFF || m == 0 { datas.extend([1, 0x7FFF, 0x8000, 0x8001, 0xFFFE, 2]); }
-        for _ in 0..ctx.n(2, 4) { datas.push(rng.u16()); }
+        for _ in 0..ctx.n(1, 4) { datas.push(rng.u16()); }
         // a zero that is only zero on the initialised bits / only on the uninitialised bits
         datas.push(rng.u16() & !m); datas.push(rng.u16() & m);
         datas.sort(); datas.dedup();
